@@ -11,6 +11,9 @@ MODULES = [
     "mdhash",
     "chacha",
     "gost28147",
+    "dnsref",
+    "radiusref",
+    "httpgen",
 ]
 
 
